@@ -150,8 +150,8 @@ func run(env *core.Env, rep *core.Report, prop string) *core.Result {
 		s.note("Cli", r, fmt.Sprintf("%d (argument list, entry form) cases; ExitZeroIffAllSucceeded, InOrderNothingAfterFailure, Terminates hold", len(clis)))
 	})
 	wg.Wait()
-	if len(grammar) != 36990 || len(status) != 1532 || len(clis) != 774 {
-		core.Broken("generators emitted %d/%d/%d cases, expected 36990/1532/774", len(grammar), len(status), len(clis))
+	if len(grammar) != 147960 || len(status) != 3064 || len(clis) != 774 {
+		core.Broken("generators emitted %d/%d/%d cases, expected 147960/3064/774", len(grammar), len(status), len(clis))
 	}
 	replayed, nontrivial := 0, 0
 	gsel := grammar
@@ -164,14 +164,6 @@ func run(env *core.Env, rep *core.Report, prop string) *core.Result {
 	n, nt := s.replay(gsel, "grammar")
 	replayed, nontrivial = replayed+n, nontrivial+nt
 	ssel := status
-	if prop == "C06" && !thorough {
-		ssel = status[:0]
-		for i, c := range status {
-			if i%6 == 0 {
-				ssel = append(ssel, c)
-			}
-		}
-	}
 	n, nt = s.replay(ssel, "status")
 	replayed, nontrivial = replayed+n, nontrivial+nt
 	nRows := 600
